@@ -112,6 +112,11 @@ func vDebugErr(label string, err error)
 func vIDString(name string) string
 
 func vEmptyStore() dsig.X509CertificateStore
+
+// vStoreCert(i): the certificate of IdP signing key number i, validity bounds arbitrary (whole seconds, 1970..2100)
+func vStoreCert(i int) *x509.Certificate
+func vStoreCertNotBefore(i int) int64
+func vStoreCertNotAfter(i int) int64
 func vValidateCtxSince(k int, sp *SAMLServiceProvider) bool
 
 func vCertBytes(name string) []byte
